@@ -69,6 +69,8 @@ FIXED = [
  ("F61", "C19", "fix: HTML5 output declares SVG, MathML or XHTML below an element that only carried the default declaration", "<x:foo xmlns:x=\"a\" xmlns=\"http://www.w3.org/2000/svg\"><circle/></x:foo> was written as <x:foo xmlns:x=\"a\"><circle></circle></x:foo>: the default declaration is dropped on x:foo but was still counted as in force, so the SVG element had no xmlns at all; reported by a seeding sub-agent, then generated"),
  ("F62", "C19", "fix: escape the namespace URI in the xmlns attributes of HTML5 output", "a namespace URI containing & or \" was written raw into xmlns:p=\"...\" by the HTML5 serialiser (raw ampersand / attribute value ended early); reported by a seeding sub-agent, then generated"),
  ("F63", "C03", "fix: write a declaration that binds another prefix to the XML namespace", "<a xmlns:x=\"http://www.w3.org/XML/1998/namespace\" x:lang=\"en\"/> was accepted and serialised as <a x:lang=\"en\"/>, which the parser rejects (UnknownPrefix); <a xmlns=\"http://www.w3.org/XML/1998/namespace\"/> lost its namespace; reported by a seeding sub-agent, then reached through the arbitrary-input alphabet"),
+ ("F64", "C19", "fix: return the writer's error from the Write-based serialisers instead of panicking", "html5().write / serialize_write / serialize_write_with_normalizer into a writer that fails after some bytes (no space left, closed pipe) panicked (`Result::unwrap()` on the io::Error, in serialize_node and for the doctype line) instead of returning Error::Io; found by line coverage pointing at the never-executed error conversions, then by a failing writer behind the HTML5 entry points"),
+ ("F64", "C10", "fix: return the writer's error from the Write-based serialisers instead of panicking", "Xot::write / serialize_xml_write into a writer that fails after some bytes panicked in XmlSerializer::serialize_node instead of failing with Error::Io (same cause and same commit as the HTML5 case)"),
  ("F52b", "C15", "fix: deduplicate_namespaces still drops a repeated default declaration above an attribute of that namespace", "follow-up to the F52 repair, which had become over-cautious: <doc xmlns=\"X\"><a xmlns=\"X\"><b xmlns:p=\"X\" p:attr=\"\"/></a></doc> kept the redundant xmlns=\"X\" on a, which the pinned tree removed (no clause of C15 was violated; noticed because the demonstration of seeded change C15-2 asserts the exact output)"),
  ("F31a", "C06", "fix: create_missing_prefixes returns an error for a document without an element", "create_missing_prefixes panicked on a document without element"),
 ]
